@@ -108,7 +108,9 @@ class Model:
         vm = v["mesh"]
         src = v["source"]
         out = {}
-        if v["loc"] == "NODE":
+        if v["loc"] == "NODE" or src in vm["nodal"]:
+            # nodal data (also when it is stored row by row as an element-nodal variable: every row of a node
+            # carries the node's value)
             per_node = vm["nodal"][src]
             for e, n in expected_index(self.geoms[geom]):
                 out[(e, n)] = per_node.get(str(n))
